@@ -15,6 +15,7 @@ import (
 	"sync/atomic"
 	"testing"
 	"time"
+	"unicode"
 
 	astisub "github.com/asticode/go-astisub"
 	"pgregory.net/rapid"
@@ -38,6 +39,20 @@ type c20Op struct {
 	// ViaOpen (read): the document sits in a file of the directory shared by all calls of the process and is read
 	// through the file-level opener
 	ViaOpen bool `json:"via_open,omitempty"`
+	// Ext (with ViaOpen): the spelling of the file's extension (extensions are matched whatever their case)
+	Ext string `json:"ext,omitempty"`
+	// WantAny (read): the result is known by construction to hold one of these texts - in every phase, whatever the
+	// process read before
+	WantAny []string `json:"want_any,omitempty"`
+}
+
+const c20Unexpected = "UNEXPECTED-RESULT: "
+
+func flagUnexpected(i int, o c20Op, r string) string {
+	if strings.HasPrefix(r, c20Unexpected) {
+		return fmt.Sprintf("operation %d (%s %s) returned something else than what its input denotes (expected one of %q): %s", i, o.Kind, o.Format, o.WantAny, clip(strings.TrimPrefix(r, c20Unexpected), 500))
+	}
+	return ""
 }
 
 type c20Case struct {
@@ -127,7 +142,11 @@ func (o c20Op) run() (res string) {
 			var err error
 			if o.ViaOpen {
 				c20DirOnce.Do(func() { c20Dir, _ = os.MkdirTemp("", "c20files") })
-				p := filepath.Join(c20Dir, fmt.Sprintf("in-%d.%s", c20FileSeq.Add(1), o.Format))
+				ext := o.Ext
+				if ext == "" {
+					ext = o.Format
+				}
+				p := filepath.Join(c20Dir, fmt.Sprintf("in-%d.%s", c20FileSeq.Add(1), ext))
 				_ = os.WriteFile(p, o.Doc, 0o644)
 				s, err = astisub.Open(astisub.Options{Filename: p, STL: astisub.STLOptions{IgnoreTimecodeStartOfProgramme: o.Opts.IgnoreTCP}, Teletext: astisub.TeletextOptions{Page: o.Opts.Page, PID: o.Opts.PID}})
 				_ = os.Remove(p)
@@ -141,6 +160,15 @@ func (o c20Op) run() (res string) {
 			if err != nil {
 				// which error a call returns is part of its result
 				res += ": " + err.Error()
+			}
+			if len(o.WantAny) > 0 {
+				found := false
+				for _, w := range o.WantAny {
+					found = found || strings.Contains(res, w)
+				}
+				if !found {
+					res = c20Unexpected + res
+				}
 			}
 			if err == nil && s != nil {
 				// the caller owns the list it got: it edits every part of it, through the pointers it was given too
@@ -354,6 +382,9 @@ func checkC20(c c20Case) string {
 		firstLog := make([]string, len(c.Ops))
 		for i, o := range c.Ops {
 			first[i], firstLog[i] = runLogged(o)
+			if m := flagUnexpected(i, o, first[i]); m != "" {
+				return m
+			}
 		}
 		c20Day.Store(1)
 		for i := len(c.Ops) - 1; i >= 0; i-- {
@@ -387,6 +418,9 @@ func checkC20(c c20Case) string {
 			break
 		}
 		want[i], logged[i] = runLogged(o)
+		if m := flagUnexpected(i, o, want[i]); m != "" {
+			return m
+		}
 	}
 	// "alone" must not depend on what ran before: the same calls, one after the other, in the opposite order (and on
 	// another day)
@@ -450,6 +484,9 @@ func checkC20(c c20Case) string {
 			}
 		}
 		for i := range want {
+			if m := flagUnexpected(i, c.Ops[i], got[i]); m != "" {
+				return m
+			}
 			if got[i] != want[i] {
 				return fmt.Sprintf("operation %d (%s %s%s) returned a different result when run concurrently with %d other operations on %d goroutines (round %d)\n--- alone ---\n%s\n--- concurrent ---\n%s",
 					i, c.Ops[i].Kind, c.Ops[i].Format, c.Ops[i].Name, len(c.Ops)-1, g, round, clip(want[i], 500), clip(got[i], 500))
@@ -485,6 +522,17 @@ func withAnonymousRegion(format string, doc []byte) []byte {
 	return doc
 }
 
+// mixCase draws a spelling of an extension: each letter in either case.
+func mixCase(t *rapid.T, ext string) string {
+	b := []byte(ext)
+	for i := range b {
+		if rapid.Bool().Draw(t, "upper") {
+			b[i] = byte(unicode.ToUpper(rune(b[i])))
+		}
+	}
+	return string(b)
+}
+
 var c20Transforms = []string{"add", "fragment", "unfragment", "order", "merge", "optimize", "removestyling", "forceduration", "linear"}
 
 func genC20Op(t *rapid.T) c20Op {
@@ -506,12 +554,15 @@ func genC20Op(t *rapid.T) c20Op {
 			o.Doc, o.Opts = genHostileDoc(t, f)
 		}
 		o.ViaOpen = rapid.IntRange(0, 3).Draw(t, "viaopen") == 0
+		if o.ViaOpen {
+			o.Ext = mixCase(t, f)
+		}
 		return o
 	case 1:
 		g := genGLRaw(t)
 		o := c20Op{Kind: "write", Format: rapid.SampledFrom(writerFormats).Draw(t, "writer"), Spec: &g}
 		if rapid.IntRange(0, 3).Draw(t, "tofile") == 0 {
-			o.Format = "file:" + rapid.SampledFrom([]string{"srt", "vtt", "ssa", "ass", "ttml", "stl", "SRT"}).Draw(t, "fileext")
+			o.Format = "file:" + mixCase(t, rapid.SampledFrom([]string{"srt", "vtt", "ssa", "ass", "ttml", "stl"}).Draw(t, "fileext"))
 			return o
 		}
 		if rapid.IntRange(0, 3).Draw(t, "failingdest") == 0 {
@@ -565,6 +616,15 @@ func TestC20(t *testing.T) {
 			without := []byte("WEBVTT\n\n00:00:03.000 --> 00:00:04.000\nsecond segment\n")
 			faulty := []byte(`<tt xmlns="http://www.w3.org/ns/ttml"><head><styling><style xml:id="s"/></styling></head><body><div><p begin="1s" end="2s" style="nope1">a</p><p begin="3s" end="4s" region="nope2">b</p><p begin="5s">c</p><p begin="6s" end="7s"><span style="nope3">d</span></p></div></body></tt>`)
 			faultyVTT := []byte("WEBVTT\n\n00:00:01.000 --> 00:00:02.000 region:nope1\na\n\n00:00:03.000 --> x\nb\n\nRegion: id=\n")
+			// two teletext streams using the same national option code, one of them with a designation packet (M/29)
+			// that selects another character set for it
+			for _, des := range []int{0, 5} {
+				st := ttxStream{Mag: 1, Tens: 2, Units: 3, Serial: true, OptPID: true, OptPage: true, Designation: des,
+					Instances: []ttxInstance{{PTS: 90000, Rows: []ttxRow{{Y: 20, Segs: []ttxSeg{{Text: "a#$b @[]"}}}}}, {PTS: 180000}}}
+				doc, exp := st.render()
+				run := exp[0].Lines[0].Runs[0]
+				pool = append(pool, c20Op{Kind: "read", Format: "ts", Doc: doc, Opts: readOpts{PID: ttxPID, Page: st.pageOption()}, WantAny: []string{fmt.Sprintf("%q", run.Text), fmt.Sprintf("%q", run.AltText)}})
+			}
 			for _, via := range []bool{true, false} {
 				pool = append(pool, c20Op{Kind: "read", Format: "vtt", Doc: withMap, ViaOpen: via}, c20Op{Kind: "read", Format: "vtt", Doc: without, ViaOpen: via},
 					c20Op{Kind: "read", Format: "ttml", Doc: faulty, ViaOpen: via}, c20Op{Kind: "read", Format: "vtt", Doc: faultyVTT, ViaOpen: via})
@@ -629,6 +689,18 @@ func TestC20(t *testing.T) {
 		td := genTTMLDoc(rt, false)
 		td.Lang = code
 		pool = append(pool, c20Op{Kind: "read", Format: "ttml", Doc: renderTTML(td, ttmlRendering{StylePfx: "tts", XMLID: true, EOL: "\n"})}, c20Op{Kind: "write", Format: "ttml", Spec: &gl})
+		// the file-level helpers under extension spellings this process has not met yet
+		for _, f := range []string{"srt", "vtt", "ttml", "ssa", "stl"} {
+			pool = append(pool, c20Op{Kind: "write", Format: "file:" + mixCase(rt, f), Spec: &g},
+				c20Op{Kind: "read", Format: f, Doc: docGen(f).Draw(rt, "coldfiledoc"), ViaOpen: true, Ext: mixCase(rt, f)})
+		}
+		for _, des := range []int{0, 5} {
+			st := ttxStream{Mag: 1, Tens: 2, Units: 3, Serial: true, OptPID: true, OptPage: true, Designation: des,
+				Instances: []ttxInstance{{PTS: 90000, Rows: []ttxRow{{Y: 20, Segs: []ttxSeg{{Text: "a#$b @[]"}}}}}, {PTS: 180000}}}
+			doc, exp := st.render()
+			run := exp[0].Lines[0].Runs[0]
+			pool = append(pool, c20Op{Kind: "read", Format: "ts", Doc: doc, Opts: readOpts{PID: ttxPID, Page: st.pageOption()}, WantAny: []string{fmt.Sprintf("%q", run.Text), fmt.Sprintf("%q", run.AltText)}})
+		}
 		// each operation of the pool twice (two goroutines meet in the same code for the first time), then random picks
 		c.Ops = append(append(c.Ops, pool...), pool...)
 		for i := rapid.IntRange(0, 16).Draw(rt, "nops"); i > 0; i-- {
